@@ -87,6 +87,7 @@ FR = [
     "{#i}\n# Hid\n", "> ## Hq\n", "```{note}\n---\n```\n", "```{note}\n# Hn\n\n---\n\ntail\n```\n", "[t]: http://u\n\n[x][t] [y][nodef]\n", "```{figure} f.png\n:name: fig1\n\ncap\n```\n",
     "[](#fig1)\n", "```{table} T\n:name: tbl\n\n|a|\n|-|\n|1|\n```\n", "***\n\n***\n", "<div class=\"admonition\" name=\"n1\">\n<p>hn</p>\n</div>\n", "- [ ] task\n", "+++\n",
     "[^a]: A\n\n(a)=\npara named a\n", "[^a]: A\n\n```{note}\n:name: a\nn\n```\n", "![see [^a]](img.png)\n", "![a [b]{#x}](i.png)\n\n[l](#x)\n", "![alt (t)= {#i}](i.png){#img}\n",
+    "```{line-block}\na\n  b\nc\n```\n", "```{line-block}\na\n  b\n    c\n  d\ne\n```\n", "<img src=\"a.png\" name=\"foo\">\n<img alt=\"x\">\n\n[link](#foo)\n",
     "(t2)=\n## Titled target\n", "[](#t2) and [](#t2) and <project:#t2>\n", "[](#fig1) [](#fig1)\n", "[](#h) [](#h)\n", "x[^a] y[^a]\n",
 ]
 
@@ -146,6 +147,44 @@ def run_doc(text, sig_extra=None):
     else:
         nt = True
     return Obs(digest=tuple(dig), nontrivial=nt, violations=viol[:4], transitions=2, validated=2, stats={"transform_aborted": int(aborted)})
+
+
+RAWF = ["a\\\nb\n", "x <b>i</b> y\n", "<div>blk</div>\n", "~~s~~\n", "> q\\\n> r\n", "- i <u>u</u>\n", "```{raw} html\n<p>r</p>\n```\n", "|a\\|\n|-|\n|b<br>c|\n"]
+
+
+class RawDisabledSystem(System):
+    """the replacement of raw nodes under raw_enabled=False must leave a well-formed tree as well"""
+
+    name = "raw-disabled"
+
+    def __init__(self, tier):
+        super().__init__(tier)
+        self.k = 2 if tier == "quick" else 3
+        self.description = f"all sequences of <= {self.k} raw-carrying fragments (hard breaks, inline / block HTML, strikethrough, raw directive) rendered with raw_enabled=False: same invariants"
+
+    def bounds(self):
+        return {"fragments": self.k, "pool": len(RAWF)}
+
+    def rule(self):
+        return "one case = one fragment sequence; non-trivial = always"
+
+    def cases(self):
+        for n in range(1, self.k + 1):
+            for idx in itertools.product(range(len(RAWF)), repeat=n):
+                yield list(idx)
+
+    def run(self, idx):
+        text = "MARKER first paragraph\n\n" + "\n".join(RAWF[i] for i in idx)
+        st = dict(SETTINGS, raw_enabled=False)
+        viol = []
+        doc, warn = docutils_doctree(text, st)
+        found = check_tree(doc, warn, post=True)
+        if list(doc.findall(nodes.raw)):
+            found.append(("raw-survives", "raw"))
+        for clause, detail in sorted(set(found)):
+            viol.append(violation(clause, {"clause": clause, "detail": detail.split(">")[0] if clause.startswith("i-") else detail, "stage": "raw-disabled"},
+                                  f"raw_enabled=False: invariant {clause} violated ({detail})", text=text))
+        return Obs(digest=(tuple(sorted(set(found))), warn.count("Raw content disabled")), violations=viol[:4])
 
 
 class GrammarSystem(System):
@@ -238,4 +277,4 @@ class SphinxSystem(System):
 
 
 def systems(tier):
-    return [FragmentSystem(tier), GrammarSystem(tier), SphinxSystem(tier)]
+    return [FragmentSystem(tier), GrammarSystem(tier), RawDisabledSystem(tier), SphinxSystem(tier)]
